@@ -5056,7 +5056,11 @@ class PyCdlib:
                         if child.file_ident == iso9660_name:
                             # Python 3.4 doesn't support substitution with a byte
                             # array, so we do it as a string and encode to bytes.
-                            iso9660_name = name + ('%03d' % (index)).encode()
+                            # The generated name has to obey the length limit
+                            # for directory names of the interchange level too.
+                            suffix = ('%03d' % (index)).encode()
+                            maxlen = 8 if self.interchange_level == 1 else 207
+                            iso9660_name = name[:maxlen - len(suffix)] + suffix
                             index += 1
                             break
                     else:
